@@ -29,7 +29,7 @@ STUBS = SC.SCHED_STUBS
 ENUM = ["everything except num_workers: graphs, failing task, history operations"]
 OUTSIDE = ["non-LIFO exit orders of context objects", "callbacks that raise", "histories longer than the bound"]
 BOUNDS = {
-    "quick": dict(protocol="N<=3 nodes {Task,DataNode}, <=1 failing task, explicit and global callbacks", histories="length <= 4, 2 callback objects, 7 operation kinds"),
+    "quick": dict(protocol="N<=3 nodes {Task,DataNode}, <=1 failing task, explicit and global callbacks", histories="length <= 4, 2 callback objects, 8 operation kinds (incl. a failing compute)"),
     "thorough": dict(protocol="N<=3 nodes {Task,DataNode,Alias,legacy list}, N=4 {Task}", histories="length <= 6"),
 }
 
@@ -111,7 +111,7 @@ def mk_protocol(N, kinds, chunks=SC.CHUNKSIZES):
     return Obligation(f"protocol[N={N},kinds={'+'.join(kinds)}]", setup, run)
 
 
-OPS = ("with_cb", "add_cb", "add_both", "exit", "register", "unregister", "compute")
+OPS = ("with_cb", "add_cb", "add_both", "exit", "register", "unregister", "compute", "compute_fail")
 
 
 def mk_history(Lmax):
@@ -180,12 +180,16 @@ def mk_history(Lmax):
                     for i in before & keep:
                         e.check(tup[i] in Callback.active,
                                 f"leaving a context deactivated callback {i} that an enclosing context / earlier register() activated")
-                elif op == "compute":
+                elif op in ("compute", "compute_fail"):
                     before = {i for i in (0, 1) if tup[i] in Callback.active}
                     del fired[:]
                     log = []
-                    dsk = SC.build([dict(kind="task", deps=[], leaf=None)], log, {})
-                    SC.run_scheduler(e, dsk, SC.key_of(0), 1, 1, log, callbacks=None, use_loads=False)
+                    dsk = SC.build([dict(kind="task", deps=[], leaf=None)], log, {0: SC.Boom} if op == "compute_fail" else {})
+                    try:
+                        SC.run_scheduler(e, dsk, SC.key_of(0), 1, 1, log, callbacks=None, use_loads=False)
+                        e.check(op == "compute", "failing task did not raise")
+                    except SC.Boom:
+                        e.check(op == "compute_fail", "unexpected Boom")
                     e.check(sorted(fired) == sorted(before), f"scheduler fired start callbacks {sorted(fired)}, active were {sorted(before)}")
                     after = {i for i in (0, 1) if tup[i] in Callback.active}
                     e.check(after == before, "scheduler call changed the set of active callbacks")
